@@ -1026,6 +1026,41 @@ theorem setW_mem (x w : Nat) : ∀ (acc : List (Nat × Nat)),
         · exact h _ (by simp)
         · exact ih.2 (fun d hd => h d (List.mem_cons_of_mem _ hd)) hw d hd
 
+theorem addW_mem (x w : Nat) : ∀ (acc : List (Nat × Nat)),
+    (∀ y, y ∈ (addW acc x w).map (·.1) ↔ (y ∈ acc.map (·.1) ∨ y = x)) ∧
+    ((∀ d ∈ acc, 0 < d.2) → 0 < w → ∀ d ∈ addW acc x w, 0 < d.2) := by
+  intro acc
+  induction acc with
+  | nil =>
+    refine ⟨by intro y; simp [addW], ?_⟩
+    intro _ hw d hd; simp [addW] at hd; subst hd; exact hw
+  | cons a r ih =>
+    obtain ⟨xa, va⟩ := a
+    by_cases e : xa = x
+    · subst e
+      refine ⟨?_, ?_⟩
+      · intro y
+        simp only [addW, if_true, List.map_cons, List.mem_cons]
+        constructor
+        · exact Or.inl
+        · rintro (h | h)
+          · exact h
+          · exact Or.inl h
+      · intro h hw d hd
+        simp only [addW, if_true, List.mem_cons] at hd
+        rcases hd with rfl | hd
+        · show 0 < va + w; omega
+        · exact h d (List.mem_cons_of_mem _ hd)
+    · refine ⟨?_, ?_⟩
+      · intro y
+        simp only [addW, e, if_false, List.map_cons, List.mem_cons, ih.1 y]
+        exact or_assoc.symm
+      · intro h hw d hd
+        simp only [addW, e, if_false, List.mem_cons] at hd
+        rcases hd with rfl | hd
+        · exact h _ (by simp)
+        · exact ih.2 (fun d hd => h d (List.mem_cons_of_mem _ hd)) hw d hd
+
 theorem taxDist_ok {t : Taxo} : ∀ (kws acc : List (Nat × Nat)), (∀ kw ∈ kws, (resolve t kw.1).isSome) →
     ∃ dist, taxDist t kws acc = .ok dist ∧
       (∀ y, y ∈ dist.map (·.1) ↔ (y ∈ acc.map (·.1) ∨ ∃ kw ∈ kws, resolve t kw.1 = some y)) ∧
@@ -1037,10 +1072,10 @@ theorem taxDist_ok {t : Taxo} : ∀ (kws acc : List (Nat × Nat)), (∀ kw ∈ k
     intro acc h
     obtain ⟨k, w⟩ := kw
     obtain ⟨x, hx⟩ := Option.isSome_iff_exists.1 (h (k, w) (by simp))
-    obtain ⟨dist, h1, h2, h3⟩ := ih (setW acc x w) (fun kw hkw => h kw (List.mem_cons_of_mem _ hkw))
+    obtain ⟨dist, h1, h2, h3⟩ := ih (addW acc x w) (fun kw hkw => h kw (List.mem_cons_of_mem _ hkw))
     refine ⟨dist, by simp [taxDist, hx, h1], ?_, ?_⟩
     · intro y
-      rw [h2 y, (setW_mem x w acc).1 y]
+      rw [h2 y, (addW_mem x w acc).1 y]
       simp only [List.mem_cons, exists_eq_or_imp, hx, Option.some.injEq]
       constructor
       · rintro ((h | h) | h)
@@ -1052,7 +1087,7 @@ theorem taxDist_ok {t : Taxo} : ∀ (kws acc : List (Nat × Nat)), (∀ kw ∈ k
         · exact Or.inl (Or.inr h.symm)
         · exact Or.inr h
     · intro ha hk
-      exact h3 ((setW_mem x w acc).2 ha (hk (k, w) (by simp))) (fun kw hkw => hk kw (List.mem_cons_of_mem _ hkw))
+      exact h3 ((addW_mem x w acc).2 ha (hk (k, w) (by simp))) (fun kw hkw => hk kw (List.mem_cons_of_mem _ hkw))
 
 theorem taxDist_unknown {t : Taxo} : ∀ (kws acc : List (Nat × Nat)), (∃ kw ∈ kws, resolve t kw.1 = none) →
     taxDist t kws acc = .error .panic := by
